@@ -444,7 +444,12 @@ def limits(pid, tier, replay):
         return engine.engine_replay(pid, replay)
     fams = _fams([dict(fam="pools", K=2, CH=1), dict(fam="jobs", K=2, CH=1), dict(fam="intr", K=2, CH=2), dict(fam="sched", K=4, CH=1)],
                  [dict(fam="pools", K=12, CH=1), dict(fam="jobs", K=12, CH=1), dict(fam="intr", K=10, CH=4), dict(fam="sched", K=40, CH=1), dict(fam="fail", K=9, CH=10)], tier)
-    return engine.engine_check(pid, fams, tier, maxruns=24 if tier == "quick" else 400)
+    q = tier == "quick"
+    # design stage: pool graphs, -j 1..3, -k 1/2/unlimited, every completion and failure order of one invocation, exhaustively;
+    # invariants Limits (-j, pool depths, at most once, never 'stuck') and NoIdle, liveness Termination under FairSpec
+    design = dict(K=2 if q else 8, consts={"MaxInv": 1, "MaxEnv": 0, "MaxClock": 80, "Js": "{1, 2, 3}", "Ks": "{1, 2, 0}"},
+                  invariants=["Limits", "NoIdle"], properties=["Termination"], timeout=300 if q else 3000, fam="mcpools", workers=8)
+    return engine.engine_check(pid, fams, tier, maxruns=24 if tier == "quick" else 400, design=design)
 
 
 @reg("C07")
@@ -523,9 +528,23 @@ def status(pid, tier, replay):
     fams = _fams([dict(fam="pools", K=1, CH=1), dict(fam="fail", K=1, CH=2), dict(fam="restat", K=4, CH=3), dict(fam="dyn", K=1, CH=2), dict(fam="intr", K=1, CH=1)],
                  [dict(fam="pools", K=8, CH=1), dict(fam="fail", K=9, CH=10), dict(fam="restat", K=40, CH=4), dict(fam="dyn", K=1, CH=20), dict(fam="intr", K=6, CH=3)], tier)
     fams += _fams([dict(fam="status", K=2, CH=2)], [dict(fam="status", K=12, CH=6)], tier)
-    return engine.engine_check(pid, fams, tier, maxruns=16 if tier == "quick" else 100, props=["C20"], stream=True,
+
+    def real_pipes(s):
+        """The same scenarios on the real binary: output written in pieces to stdout and stderr through ninja's subprocess pipes
+        (console statements are left to H1: their output bypasses ninja)."""
+        if any(st.get("pool") == "console" for st in s["stmts"]):
+            return None
+        for step in s["hist"]:
+            if step.get("printer"):
+                if step["printer"] != "pipe":
+                    return None
+                step["printer"] = "h2"
+        return s
+    h2 = dict(fams=[dict(fam="status", K=2 if tier == "quick" else 12, CH=2 if tier == "quick" else 6, mut=real_pipes)], limit=80 if tier == "quick" else 1200, maxruns=2)
+    return engine.engine_check(pid, fams, tier, maxruns=16 if tier == "quick" else 100, props=["C20"], stream=True, h2=h2,
                                extra_cov={"stream_rule": "family status: every Status call of the real StatusPrinter/LinePrinter with the bytes it wrote to a captured stdout "
-                                          "(file and pseudo terminal), lexed into status / failed / output tokens and validated by spec/StatusStream.tla"})
+                                          "(file and pseudo terminal), lexed into status / failed / output tokens and validated by spec/StatusStream.tla; the same family without console statements on the real "
+                                          "binary, commands writing their output in pieces to stdout and stderr (up to 70 kB) through ninja's subprocess pipes, the whole stdout validated in one piece"})
 
 
 @reg("C12")
